@@ -247,6 +247,15 @@ func genWorkload(seed int64, idx int, tier string) *workload {
 		}
 		w.Sessions = append(w.Sessions, se)
 	}
+	// only days that received at least one session exist on disk (a day no session picked is never
+	// created by any build, so readers must not be asked to open it)
+	used := w.Days[:0]
+	for _, d := range w.Days {
+		if last[d] != 0 {
+			used = append(used, d)
+		}
+	}
+	w.Days = used
 	return w
 }
 
